@@ -29,17 +29,19 @@ pub struct CrashOut {
     pub first_bad_point: Option<(usize, u64)>,
 }
 
-struct Point {
-    op_index: usize,
-    step: u64,
-    bytes: Vec<u8>,
+pub struct Point {
+    pub op_index: usize,
+    pub step: u64,
+    pub bytes: Vec<u8>,
     /// ranges returned to the caller and not being released at this point
-    obligations: Vec<Range>,
-    boundary: bool,
-    op_desc: String,
+    pub obligations: Vec<Range>,
+    pub boundary: bool,
+    pub op_desc: String,
     /// the atomic access that preceded the crash point: (line, kind, outcome)
-    after: (u32, u8, u8),
+    pub after: (u32, u8, u8),
 }
+
+pub const POST_CRASH_CALL_BUDGET: u64 = 4000;
 
 fn obligations<A: Ar>(e: &Exec<A>) -> Vec<Range> {
     e.live.iter().map(|l| l.r.clone()).chain(e.kept.iter().cloned()).filter(|r| r.cap > 0).collect()
@@ -52,7 +54,7 @@ fn view<A: Ar>(e: &Exec<A>) -> View {
 }
 
 /// Post-crash check of one crash point. Returns a violation (class, detail) if any.
-fn check_point<A: Ar>(cfg: &Cfg, pt: &Point, path: &PathBuf, out: &mut CrashOut) -> Option<(&'static str, String)> {
+pub fn check_point<A: Ar>(cfg: &Cfg, pt: &Point, path: &PathBuf, out: &mut CrashOut) -> Option<(&'static str, String)> {
     hook::set_mode(Mode::Off);
     if std::fs::write(path, &pt.bytes).is_err() {
         return None;
@@ -80,8 +82,8 @@ fn check_point<A: Ar>(cfg: &Cfg, pt: &Point, path: &PathBuf, out: &mut CrashOut)
     let mut e = Exec::<A>::with_arena(*cfg, Some(path.clone()), arena, ExecOpts { check_reserved: false, spurious: None, crash_snaps: None });
     e.only_props = Some(vec!["C01", "C04", "C07", "CRASH"]);
     e.kept = pt.obligations.clone();
-    ST.with(|st| st.borrow_mut().call_budget = 20_000);
-    let _ = e.a();
+    // a legitimate call walks at most maximum_retries (<= 5) times over a list of <= 128 nodes: < 1000 steps
+    ST.with(|st| st.borrow_mut().call_budget = POST_CRASH_CALL_BUDGET);
     let mut n = 0u64;
     let mut doit = |e: &mut Exec<A>, op: Op| {
         if !e.dead {
@@ -158,7 +160,8 @@ fn run_generic<A: Ar>(spec: &CaseSpec, tag: u64, every: u64, mut source: impl Fn
         ST.with(|st| st.borrow_mut().snaps.clear());
         e.step(&op);
         let snaps = ST.with(|st| std::mem::take(&mut st.borrow_mut().snaps));
-        let ob_in: Vec<Range> = ob.into_iter().filter(|r| Some(r.id) != releasing).collect();
+        // clear(): the caller promises not to use anything handed out before - no obligations inside it
+        let ob_in: Vec<Range> = if matches!(op, Op::Clear) { Vec::new() } else { ob.into_iter().filter(|r| Some(r.id) != releasing).collect() };
         for (step, bytes, la) in snaps {
             points.push(Point { op_index: i, step, bytes, obligations: ob_in.clone(), boundary: false, op_desc: format!("{:?}", op), after: la });
         }
@@ -242,4 +245,50 @@ pub fn replay(spec: &CaseSpec, ops: &[Op], tag: u64, every: u64) -> CrashOut {
         i += 1;
         o
     })
+}
+
+/// C06 with threads in flight: checks the crash points recorded by a scheduled multi-thread run.
+pub fn check_mt_points(cfg: &Cfg, pts: &[crate::mt::CrashPt], tag: u64, out: &mut CrashOut) {
+    let crash_path = crate::st::scratch_dir().join(format!("c{}.mtcrash", tag));
+    // consecutive crash points often hold byte-identical images (only loads happened in between): judge each image once
+    let mut memo: std::collections::BTreeMap<u64, Option<(&'static str, String)>> = std::collections::BTreeMap::new();
+    for cp in pts {
+        out.crash_points += 1;
+        out.crash_points_in_op += 1;
+        if !cp.obligations.is_empty() {
+            out.crash_points_with_obligations += 1;
+        }
+        let pt = Point {
+            op_index: 0,
+            step: cp.step,
+            bytes: cp.bytes.clone(),
+            obligations: cp.obligations.iter().map(|r| Range { id: r.id, off: r.off, cap: r.cap, boff: r.off, bcap: r.cap, bytes: r.bytes.clone(), kind: AllocKind::Bytes, ty: 0, owned: false, embeds: 0, drop_id: None }).collect(),
+            boundary: false,
+            op_desc: format!("{} threads in flight", cp.in_flight),
+            after: (0, 0, 0),
+        };
+        let mut h = 0u64;
+        for (i, b) in cp.bytes.chunks(8).enumerate() {
+            let mut w = [0u8; 8];
+            w[..b.len()].copy_from_slice(b);
+            h = crate::rng::hash_add(h, u64::from_le_bytes(w) ^ (i as u64) << 48);
+        }
+        for r in &cp.obligations {
+            h = crate::rng::hash_add(h, r.id ^ ((r.off as u64) << 32));
+        }
+        let res = match memo.get(&h) {
+            Some(r) => r.clone(),
+            None => {
+                let r = check_point::<sync::Arena>(cfg, &pt, &crash_path, out);
+                memo.insert(h, r.clone());
+                r
+            }
+        };
+        if let Some((class, detail)) = res {
+            if out.viols.iter().all(|v| !(v.class == class && v.detail.starts_with(&format!("[{}]", cp.site)))) {
+                out.viols.push(Violation { prop: "C06", class, detail: format!("[{}] crash at global atomic step {} with {} calls in flight: {}", cp.site, cp.step, cp.in_flight, detail), op: 0 });
+            }
+        }
+    }
+    let _ = std::fs::remove_file(&crash_path);
 }
